@@ -44,6 +44,7 @@ func fail(format string, a ...interface{}) { panic(unsupported{fmt.Sprintf(forma
 
 // VC: verification of one function under contract.
 type VC struct {
+	fvCells map[string]string // B1: term of a captured-variable cell -> variable name
 	w        *World
 	cs       *Contracts
 	spec     *SpecLib
